@@ -30,6 +30,7 @@ let exn_sexp (e : exn) : t =
                    | BadAlias -> "BadAlias")]
   | MergeExc -> L [A "mergeexc"]
   | EyamlExc -> L [A "eyamlexc"]
+  | OracleMiss -> L [A "oraclemiss"]
   | PyCrash c ->
     L [A "crash"; A (match c with IndexError -> "IndexError" | TypeError -> "TypeError" | KeyError -> "KeyError"
                      | ValueError -> "ValueError" | AttributeError -> "AttributeError" | ReError -> "ReError"
